@@ -267,6 +267,13 @@ func (params *GossipSubParams) validate() error {
 		return fmt.Errorf("param Dscore=%d must be lower than or equal to  Dhi=%d", params.Dscore, params.Dhi)
 	}
 
+	// the heartbeat uses these parameters as counts, slice bounds and slice lengths
+	if params.D < 0 || params.Dlo < 0 || params.Dhi < 0 || params.Dscore < 0 || params.Dout < 0 || params.Dlazy < 0 ||
+		params.MaxIHaveLength < 0 || params.PrunePeers < 0 || params.MaxPendingConnections < 0 {
+		return fmt.Errorf("params D=%d, Dlo=%d, Dhi=%d, Dscore=%d, Dout=%d, Dlazy=%d, MaxIHaveLength=%d, PrunePeers=%d and MaxPendingConnections=%d must not be negative",
+			params.D, params.Dlo, params.Dhi, params.Dscore, params.Dout, params.Dlazy, params.MaxIHaveLength, params.PrunePeers, params.MaxPendingConnections)
+	}
+
 	// Bootstrappers set D=D_lo=D_hi=D_out=0
 	// See https://github.com/libp2p/specs/blob/master/pubsub/gossipsub/gossipsub-v1.1.md#recommendations-for-network-operators
 	if params.D == 0 && params.Dlo == 0 && params.Dhi == 0 && params.Dout == 0 {
